@@ -96,4 +96,36 @@ def monStep (st : DSt) (op : List String) (outs : List (List String)) : DSt × L
 
 def monitor : Monitor := { σ := DSt, init := {}, step := monStep }
 
+
+/-! ### the buyer / validator side end to end (harness/contractmanager/verif_buyerworld_test.go): one purchase per history -/
+
+def bwKv (toks : List String) (k : String) : String :=
+  ((toks.filterMap fun t => match t.splitOn "=" with | [a, v] => if a = k then some v else none | _ => none).head?).getD ""
+
+def monBW (_ : Unit) (op : List String) (outs : List (List String)) : Unit × List String :=
+  match op with
+  | "world" :: w =>
+    let role := bwKv w "role"; let dest := bwKv w "dest"; let fault := bwKv w "fault"
+    let ended := outs.any (· == ["mgr", "ended"])
+    let ctr := (outs.find? (·.head? = some "ctr")).getD []
+    let fin := if ended then (outs.find? (·.head? = some "restarted")).getD [] else ctr
+    let own : Bool := role != "none"
+    let watched : Bool := bwKv fin "watched" == "1"
+    let pd := bwKv fin "pooldest"; let err : Bool := bwKv fin "err" == "1"
+    let hung := if outs.any (·.head? = some "hung") then ["C16 the history did not come to rest"] else []
+    let c16 :=
+      (if own && !watched then [s!"C16 a contract purchased with this node as {role} is not watched once things have settled (fault: {fault}; the manager {if ended then "ended and was restarted" else "kept running"})"] else []) ++
+      (if !own && watched then ["C16 a contract of other parties is watched"] else [])
+    let c15 := if watched && dest == "ok" && (pd != "ok" || err) then
+      [s!"C15 a contract held as {role} whose pool destination decrypts is routed to '{pd}' (error flag {err}): connections announcing it are not attached to its pool"] else []
+    let c18 :=
+      (if watched && (dest == "foreign" || dest == "garbage" || dest == "noturl") && !err then
+        [s!"C18 a pool destination that cannot be decrypted or parsed ({dest}) raised no error: the contract is served with pool '{pd}'"] else []) ++
+      (if watched && dest != "empty" && pd == "default" && !err then
+        [s!"C18 a contract whose chain entry carries an encrypted pool destination ({dest}) is served with the node's default pool and no error (fault: {fault}): not fail-closed"] else [])
+    ((), hung ++ c16 ++ c15 ++ c18)
+  | _ => ((), [])
+
+def monitorBW : Monitor := { σ := Unit, init := (), step := monBW }
+
 end PRV.Driver.C16
